@@ -31,7 +31,9 @@ CONSTANTS Config,       \* which feature configuration
           SoupLen,      \* "soup": maximal number of tokens (in the contexts SoupLong; one token in the others)
           SoupLong,
           CycleNodes,   \* "cycles": 2 or 3 client fields
-          CycleModes    \* "cycles": edge modes, 0 .. 2 (absent / plain / @loadable) or 0 .. 1
+          CycleModes,   \* "cycles": edge modes, 0 .. 2 (absent / plain / @loadable) or 0 .. 1
+          CyclePtr      \* "cycles": TRUE makes node 2 a client POINTER (User.B to Pet) instead of a client field -- added after
+                        \* seeded/C08-cycle-check-ignores-client-pointer-edges (a cycle that runs through a pointer's own selection set)
 
 A(n, v) == <<n, v>>
 Nick == <<Scalar("nickname")>>
@@ -124,8 +126,10 @@ DirProgram(ti, di, ctx) ==
 Nodes == 1 .. CycleNodes
 NodeOn(i) == IF i = 3 THEN "Pet" ELSE "User"
 NodeName(i) == IF i = 1 THEN "A" ELSE IF i = 2 THEN "B" ELSE "C"
+IsPtr(i) == CyclePtr /\ i = 2
 EdgeSel(i, j, mode) ==
-  LET leaf == IF mode = 2 THEN WithDir(Scalar(NodeName(j)), "loadable") ELSE Scalar(NodeName(j))
+  LET leaf == IF IsPtr(j) THEN Linked(NodeName(j), <<Scalar("id")>>)       \* a pointer is selected like a linked field
+              ELSE IF mode = 2 THEN WithDir(Scalar(NodeName(j)), "loadable") ELSE Scalar(NodeName(j))
   IN IF NodeOn(i) = NodeOn(j) THEN leaf
      ELSE IF NodeOn(i) = "User" THEN LinkedA("bestPet", NodeName(j), <<>>, <<leaf>>)
      ELSE LinkedA("owner", NodeName(j), <<>>, <<leaf>>)
@@ -133,7 +137,8 @@ CycleProgram(adj, entry) ==
   LET body(i) == <<Scalar("id")>> \o [k \in 1 .. Cardinality({j \in Nodes : adj[i][j] # 0}) |->
                        LET j == CHOOSE j \in Nodes : adj[i][j] # 0 /\ Cardinality({x \in Nodes : x < j /\ adj[i][x] # 0}) = k - 1
                        IN EdgeSel(i, j, adj[i][j])]
-      decls == [i \in Nodes |-> Field(NodeOn(i), NodeName(i), <<>>, body(i))]
+      decls == [i \in Nodes |-> IF IsPtr(i) THEN Pointer(NodeOn(i), NodeName(i), "Pet", <<Linked("bestPet", <<Scalar("__link")>>)>> \o body(i))
+                                 ELSE Field(NodeOn(i), NodeName(i), <<>>, body(i))]
   IN Program(decls \o (IF entry = 1 THEN <<Home(<<>>, <<Linked("me", <<Scalar("A")>>)>>), EHome>>
                        ELSE IF entry = 2 THEN <<Home(<<>>, <<Linked("me", <<WithDir(Scalar("A"), "loadable")>>)>>), EHome>>
                        ELSE <<>>))
